@@ -64,10 +64,13 @@ def make_scratch_tree(scratch):
 def apply_injections(tree, loops_files, shrink):
     """returns report list; raises inj.InjectError"""
     reports = []
+    done = set()
     for lf in loops_files:
         spec = inj.parse_loops_file(os.path.join(VERIF, 'contracts', lf))
         path = os.path.join(tree, spec['file'])
-        src = open(os.path.join(REPO, spec['file'])).read()
+        # several .loops files may address one source file: they are applied one after the other on the scratch copy
+        src = open(path if spec['file'] in done else os.path.join(REPO, spec['file'])).read()
+        done.add(spec['file'])
         out, rep = inj.inject(src, spec, with_shrink=shrink)
         rep['file'] = spec['file']
         rep['loops_file'] = lf
@@ -224,6 +227,20 @@ def run_query(q, shape, scratch_root, tier):
             r.reason = 'goto-cc failed: ' + (err + out)[-1500:]
             return r
         gb = a_gb
+        if q.get('pre_unwind'):
+            # loops without a contract that are nested inside a loop with a contract must be unwound BEFORE the loop contracts are applied
+            a1_gb = os.path.join(sdir, 'a1.gb')
+            pu = ['goto-instrument']
+            for k, v in q['pre_unwind'].items():
+                pu += ['--unwindset', '%s:%d' % (k, v)]
+            pu += ['--unwinding-assertions', a_gb, a1_gb]
+            r.cmds.append(' '.join(pu))
+            rc, out, err, _ = sh(pu, timeout=300)
+            if rc != 0:
+                r.reason = 'goto-instrument (pre-unwind) failed: ' + (err + out)[-1000:]
+                return r
+            a_gb = a1_gb
+            gb = a_gb
         if q.get('mode', 'wrap') == 'dfcc':
             gi = ['goto-instrument', '--dfcc', entry]
             for f in q.get('enforce', []):
